@@ -313,6 +313,19 @@ def run(ctx, col, tier):
     memo.run(ctx, col, ('swcgeom.core.population', 'swcgeom.transforms.population'))
     from ..rules import ignoredparam
     ignoredparam.run(ctx, col, ('swcgeom.core.population', 'swcgeom.transforms.population'))
+    # every container that normalises its key through the shared helper does so against ITS OWN length
+    for dd in ctx.repo.all_defs():
+        if dd.module.name != "swcgeom.core.population" or dd.name != "__getitem__" or dd.is_lambda:
+            continue
+        for c in own_nodes(dd):
+            if isinstance(c, ast.Call) and dotted(c.func) == "_get_idx" and len(c.args) == 2:
+                a1 = norm_src(c.args[1])
+                if a1 == "len(self)":
+                    col.ok("R-IDXNORM", dd.qualname, dd.loc(c), "the key is normalised against the container's own length", norm_src(c), stmt="own-length")
+                elif a1.startswith("len(self.") :
+                    col.bad("R-IDXNORM", dd.qualname, dd.loc(c), "the key is normalised against the container's own length",
+                            f"`{norm_src(c)}` normalises the key against `{a1}`, the length of an inner container, not `len(self)`: a negative index of a view / slice is "
+                            f"shifted by the wrong length and raises IndexError or returns another tree", stmt="own-length", definite=True)
     from ..rules import globlint
     globlint.run(ctx, col, ('swcgeom.core.population', 'swcgeom.transforms.population'))
     col.guard(iter_rule, ctx, col)
